@@ -104,7 +104,47 @@ def gen(rng, tier):
     for i in range(40 if tier == 'quick' else 800):
         cases.append({'kind': 'file', 'reader': rng.choice(['ipm', 'vbs']), 'codec': 'latin_1', 'blocked': i % 2 == 0,
                       'file': bytes(rng.randrange(256) for _ in range(rng.choice([0, 3, 4, 8, 100, 1014, 2028, 2500]))).hex()})
-    # command-line tools on malformed files
+    # command-line tools: every class of header the tools' own diagnostics distinguish (the except handler prints details
+    # derived from an inspection of the file, so its code runs on exactly these inputs), crossed with a failing record
+    def bmp(bits):
+        b = bytearray(16)
+        for bit in bits:
+            b[(bit - 1) // 8] |= 1 << (7 - (bit - 1) % 8)
+        return bytes(b)
+    for rep in range(2 if tier == 'quick' else 30):
+        for codec in ('latin_1', 'cp500'):
+            e = lambda t: t.encode(codec)
+            good = iu.ref_wire(iu.rand_message(rng, pk, codec, nbits=3), pk, codec, False)
+            firsts = {
+                'good': good,
+                'mti-not-numeric': e('01O0') + bmp([1, 3]) + e('123456'),
+                'mti-spaces': e('    ') + bmp([1, 3]) + e('123456'),
+                'mti-nul': b'\x00' * 4 + bmp([1, 3]) + e('123456'),
+                'mti-other-family': '1144'.encode('cp500' if codec == 'latin_1' else 'latin_1') + bmp([1, 3]) + e('123456'),
+                'bad-field': e('1144') + bmp([1, 2]) + e('x6123456'),
+                'unconfigured-bit': e('1144') + bmp([1, 7]) + e('123456'),
+                'bit128': e('1144') + bmp([1, 128]) + e('123456'),
+                'short': e('1144') + bmp([1])[:10],
+                'pds-bad': e('1144') + bmp([1, 48]) + e('0100001abc123'),
+            }
+            for name, first in firsts.items():
+                for blocked_file in (False, True):
+                    recs = [first] + ([good] if rng.random() < 0.5 else []) + ([e('1144') + bmp([1, 4]) + e('00000000abcd')] if name == 'good' else [])
+                    stream = vbs_ref(recs)
+                    if rng.random() < 0.25:
+                        stream = stream[:-4]                     # no terminator
+                    f = block_ref(stream) if blocked_file else stream
+                    for tool in ('mci_ipm_to_csv', 'mideu_extract'):
+                        # read with the right and with the wrong blocking / encoding options
+                        for blocked_opt, codec_opt in ((blocked_file, codec), (not blocked_file, codec), (blocked_file, 'cp500' if codec == 'latin_1' else 'latin_1')):
+                            if rep and rng.random() < 0.5:
+                                continue
+                            cases.append({'kind': 'tool', 'tool': tool, 'codec': codec_opt, 'blocked': blocked_opt, 'file': f.hex(), 'hdr': name})
+    for n in (0, 3, 4, 8, 23, 24, 25, 1014, 2028):
+        raw = bytes(rng.randrange(256) for _ in range(n))
+        for tool in ('mci_ipm_to_csv', 'mideu_extract'):
+            cases.append({'kind': 'tool', 'tool': tool, 'codec': 'latin_1', 'blocked': n >= 1014, 'file': raw.hex(), 'hdr': 'random'})
+            cases.append({'kind': 'tool', 'tool': tool, 'codec': 'cp500', 'blocked': False, 'file': (b'\x00\x00\x17\x71' + raw).hex(), 'hdr': 'length-too-big'})
     ntool = 40 if tier == 'quick' else 600
     files = [c for c in cases if c['kind'] == 'file' and c['reader'] == 'ipm']
     for c in rng.sample(files, min(ntool, len(files))):
@@ -215,4 +255,4 @@ def label(case):
         return 'msg/%s/%s' % (case.get('mut', 'valid'), 'hex' if case['hex'] else 'bin')
     if case['kind'] == 'file':
         return 'file/%s/%s' % (case['reader'], '1014' if case['blocked'] else 'vbs')
-    return 'tool/' + case['tool']
+    return 'tool/' + case['tool'] + '/' + case.get('hdr', 'damaged-file')
